@@ -230,4 +230,31 @@ def adv7 (c impl : List String) : Option Verdict := do
          note := if late && !ok then lostNote else "",
          agreeOverride := if late then some true else none }
 
+/-- `rein tf window | redialled n t…`: the multicast RAs on the connection of a re-initialised
+    interface are those of a fresh start (the model run from its own instant 0, no events) -/
+def rein (c impl : List String) : Option Verdict := do
+  let (_tf, window) ← P.run (do let a ← P.int; let b ← P.int; pure (a, b)) c
+  let (redialled, ts) ← P.run (do let r ← P.bool; let l ← P.list P.int; pure (r, l)) impl
+  let fresh : AdvCase := { min := 200 * second, max := 600 * second, unicastOnly := false, stop := window,
+                           failWrite := -1, evs := [], mdraws := List.replicate 8 0, udraws := [] }
+  let want := ((dueSends fresh).filter (·.mc)).map (·.t)
+  let model := s!"1 {want.length}" ++ String.join (want.map fun t => s!" {t}")
+  let spaced := (ts.zip ts.tail).all fun (a, b) => decide (b - a ≥ Gen.Advertise.minDelayBetweenRAs)
+  let ok := redialled && spaced && ts == want
+  pure { model := model, oracle := ok, nontrivial := true,
+         note := if !redialled then "a link-state change did not re-establish the interface"
+           else if !spaced then "multicast RAs of the re-initialised interface are less than MIN_DELAY_BETWEEN_RAS apart"
+           else if ts != want then "the re-initialised interface does not advertise like a freshly initialised one (initial RA at once, the next MIN_DELAY_BETWEEN_RAS later)"
+           else "" }
+
+/-- `tfl n lat | outcome errors sentUnicast`: `n` answers in flight together, all failing: every
+    failed transmission is counted once, none is counted as sent, the task ends with an error -/
+def tfl (c impl : List String) : Option Verdict := do
+  let (n, _lat) ← P.run (do let a ← P.nat; let b ← P.int; pure (a, b)) c
+  let model := s!"error {n} 0"
+  let got := " ".intercalate impl
+  pure { model := model, oracle := got == model, nontrivial := decide (n ≥ 2),
+         note := if got == model then "" else
+           "transmissions failing while in flight together: the transmit-error counter must equal the number of failed transmissions, none may be counted as sent, and the task must end with the error" }
+
 end Driver.Sched
